@@ -157,25 +157,26 @@ pub fn gen(out: &mut Out, thorough: bool) {
         let k = out.rng.below(chars.len() as u64 + 1) as usize;
         l(format!("c03 pull {} {}", o, cps(&chars[..k].iter().collect::<String>())), out);
     }
-    // long tokens around internal size thresholds (stack buffers, inline/heap switches): totality must
-    // not depend on where a multi-byte character, an escape or the end of a token falls
+    // long tokens across internal size thresholds (stack buffers, inline/heap switches, whatever their
+    // size): totality must not depend on where a multi-byte character, an escape or the end of a
+    // token falls — every plain-run length 0..N
     {
-        let thresholds: &[usize] = if thorough { &[8, 16, 24, 32, 64, 128, 256, 512, 1024, 4096, 65536] } else { &[16, 32, 64, 128, 256, 1024] };
+        let full: usize = if thorough { 1100 } else { 300 };
         let tails = ["", "é", "€", "😀", "\\n", "\\ud83d\\ude00", "é€😀é€😀"];
         let mut n = 0u64;
-        for &thr in thresholds {
-            for d in 0..8usize {
-                let len = thr + d - 4;
-                for (ti, tail) in tails.iter().enumerate() {
-                    let body = "a".repeat(len);
-                    let o = crate::parse::ALL_OPTS[(thr + d + ti) % 4];
-                    l(format!("c03 pull {} {}", o, cps(&format!("[\"{}{}z\",{{\"{}{}\":-{}.{}e-{}}}]", body, tail, body, tail, "7".repeat(len), "7".repeat(len), "1".repeat(len.min(30))))), out);
-                    l(crate::parse::req_bytes(format!("\"{}{}", body, tail).as_bytes(), o), out);
-                    n += 2;
-                }
+        let mut len = 0usize;
+        while len <= full * 4 {
+            for (ti, tail) in tails.iter().enumerate() {
+                if len > full && ti != 1 && ti != 3 { continue; }
+                let body = "a".repeat(len);
+                let o = crate::parse::ALL_OPTS[(len + ti) % 4];
+                l(format!("c03 pull {} {}", o, cps(&format!("[\"{}{}zy\",{{\"{}{}\":-{}.{}e-{}}}]", body, tail, body, tail, "7".repeat(len.max(1)), "7".repeat(len.max(1)), "1".repeat(len.clamp(1, 30))))), out);
+                n += 1;
+                if (len + ti) % 4 == 0 { l(crate::parse::req_bytes(format!("\"{}{}", body, tail).as_bytes(), o), out); n += 1; }
             }
+            len += if len < full { 1 } else { 13 };
         }
-        out.count_n("threshold_straddle_docs", n);
+        out.count_n("every_run_length_docs", n);
     }
     // random bytes and random damage through the byte entry point, all option records
     let n_rand = if thorough { 200_000 } else { 30_000 };
